@@ -303,6 +303,46 @@ CanonSize(f, ds, evp, full) ==
                                         /\ (full => DependsOnTop(b, ds, k))})
     IN SumOver(Len(ds), nodesAt)
 
+(***************************************************************************)
+(* Canonical size of a multi-terminal *relation* diagram.  Positions of     *)
+(* the table: 2k-1 = primed variable of level k, 2k = unprimed.  C is the   *)
+(* set of non-zero cofactors at the unprimed level k (all variables above   *)
+(* fixed); H(c, i) the cofactor below unprimed index i (a function of the   *)
+(* primed variable and the lower levels); G(h, j) the cofactor below primed *)
+(* index j.                                                                 *)
+(*   quasi-reduced    : a node per non-zero cofactor, unprimed and primed   *)
+(*   fully-reduced    : ... that depends on its top variable                *)
+(*   identity-reduced : a primed node reached through index i is dropped    *)
+(*                      if its only non-zero child is at index i; an        *)
+(*                      unprimed node is dropped if all its children (after *)
+(*                      that elimination) are the same edge                 *)
+(***************************************************************************)
+RelCanonSize(f, ds, rule) ==
+    LET IsZero(b) == \A x \in DOMAIN b : b[x] = 0
+        Sub(b, w, i) == SubSeq(b, i * w + 1, (i + 1) * w)
+        atLevel(k) ==
+            LET Wp == ProdUpTo(ds, 2 * k - 1)
+                Wl == ProdUpTo(ds, 2 * k - 2)
+                s  == ds[2 * k]
+                C  == {c \in BlocksAt(f, ds, 2 * k) : ~IsZero(c)}
+                H(c, i) == Sub(c, Wp, i)
+                G(h, j) == Sub(h, Wl, j)
+                Single(h, i) == \A j \in 0..(s - 1) : j # i => IsZero(G(h, j))
+                Desc(c, i) == LET h == H(c, i)
+                              IN IF IsZero(h) THEN <<"Z", << >> >>
+                                 ELSE IF Single(h, i) THEN <<"L", G(h, i)>>
+                                 ELSE <<"P", h>>
+                uNodes == CASE rule = "Q" -> C
+                            [] rule = "F" -> {c \in C : \E i \in 1..(s - 1) : H(c, i) # H(c, 0)}
+                            [] OTHER      -> {c \in C : \E i \in 1..(s - 1) : Desc(c, i) # Desc(c, 0)}
+                pAll == {<<H(c, i), i>> : c \in C, i \in 0..(s - 1)}
+                pLive == {q \in pAll : ~IsZero(q[1])}
+                pNodes == CASE rule = "Q" -> {q[1] : q \in pLive}
+                            [] rule = "F" -> {q[1] : q \in {r \in pLive : \E j \in 1..(s - 1) : G(r[1], j) # G(r[1], 0)}}
+                            [] OTHER      -> {q[1] : q \in {r \in pLive : ~Single(r[1], r[2])}}
+            IN Cardinality(uNodes) + Cardinality(pNodes)
+    IN SumOver(Len(ds) \div 2, atLevel)
+
 (* Unary maps *)
 DistIncFn(f) == [i \in DOMAIN f |-> IF Bad(f[i]) THEN OffGrid
                                     ELSE IF f[i] >= 0 THEN Guard(f[i] + 1, FALSE) ELSE f[i]]
